@@ -24,4 +24,14 @@ UNITS = [
                  "(thorough: 2^6) condition-outcome sequences; well-formedness of the subroutines (labels 0..n-1, "
                  "label only first, every target exists, a yield ends its subroutine); exhaustive within the bound",
            args={"max_size": 4, "n_outcomes": 5}, thorough_args={"max_size": 5, "n_outcomes": 6}, timeout_s=3000),
+    # C18: the translator is a recursive Transformer over the regex tree that emits labelled leaves, relabels and
+    # removes no-ops in place; "the program accepts exactly the language of the pattern" is a statement about an
+    # NFA simulation -- outside pyvc's reach.  Bounded: small patterns x short strings on the real translator.
+    Native("small anchored patterns: the VM program against re.fullmatch", ["C18"], "native.c18:bounded", kind="bounded",
+           bound="every pattern ^t1 t2$ with <= 2 terms from 14 atoms (chars, escapes, '.', sets, complemented and range "
+                 "sets, groups with alternation / nesting / empty alternative) x 11 quantifiers (none * + ? {2} {1,2} "
+                 "{2,} {,2} {0} {0,1} {3}) + 13 hand-picked patterns, run on every string over 'abcd.' of length <= 3 "
+                 "(thorough: <= 5) by a reference Pike VM; labels must equal instruction indices; exhaustive within "
+                 "the bound.  The generated C++ matcher itself is not run",
+           args={"max_terms": 2, "max_len": 3}, thorough_args={"max_terms": 2, "max_len": 5}, timeout_s=3000),
 ]
